@@ -7,11 +7,10 @@ import re
 from pathlib import Path
 
 V = Path(__file__).resolve().parent.parent
-texts = json.loads((V / "tools" / "manifest_texts.json").read_text())
+texts = {f.stem: json.loads(f.read_text()) for f in (V / "tools" / "texts").glob("C*.json")}
 props = [json.loads(l)["id"] for l in (V / "properties.jsonl").read_text().splitlines() if l.strip()]
 claimed = sorted(p.stem.upper() for p in (V / "harness" / "props").glob("c[0-9]*.py"))
-baseline = json.loads(Path("/root/.vp/BASELINE.json").read_text())["cmd"] if Path("/root/.vp/BASELINE.json").exists() else texts["_baseline_cmd"]
-texts["_baseline_cmd"] = baseline
+baseline = "cd /repo && /venv/bin/python -m pytest -ra -q -p no:cacheprovider --timeout=900 --continue-on-collection-errors"
 checks, na = [], []
 for p in props:
     t = texts.get(p, {})
@@ -35,7 +34,7 @@ m = {
     "hooks": {
         "guard": "GENJAX_VERIF",
         "enable": "no hooks are installed: the implementation is pure Python and observed through its public API (editable install of /repo/src)",
-        "baseline_off_cmd": baseline.replace("--junitxml=<file>", "").strip(),
+        "baseline_off_cmd": baseline,
         "source_commits": [],
         "add_only": True,
     },
@@ -50,5 +49,4 @@ m = {
     "notes": "Entry point ./check <id> --tier quick|thorough [--replay f]; decision rule and trusted base in DESIGN.md sections 2 and 10; known findings in known_findings.json.",
 }
 (V / "MANIFEST.json").write_text(json.dumps(m, indent=1) + "\n")
-(V / "tools" / "manifest_texts.json").write_text(json.dumps(texts, indent=1) + "\n")
 print(f"claimed {len(checks)} / {len(props)}; not_applicable {len(na)}")
